@@ -89,10 +89,14 @@ class Lexical(UsesState, HasLabel, Generic[ParentType], ABC):
 
         _ensure_path_is_not_cyclic(new_parent, self)
 
+        if new_parent is not None and self not in new_parent.children.inv:
+            # Fail before anything changes if the new parent cannot take this label
+            new_parent._get_unique_label(self.label, new_parent.strict_naming)
+
         if (
             self._parent is not None
             and new_parent is not self._parent
-            and self in self._parent.children
+            and self in self._parent.children.inv
         ):
             self._parent.remove_child(self)
         self._parent = new_parent
